@@ -4,6 +4,7 @@
 (* One event per line of TRACE_FILE:                                       *)
 (*  ns, labs : the document's table names per sheet and, per table, the    *)
 (*             header labels of its NL lines as the library reports them   *)
+(*  xlabs    : per table the labels on its OTHER axis (a sequence)         *)
 (*  host, target, i, j, ab, single : the stored reference (lines i..j of   *)
 (*             the target, begin/end absolute or not, stored as a single   *)
 (*             line or as a span)                                          *)
@@ -20,6 +21,7 @@ TInit == /\ tid \in 1..Len(Traces)
          /\ ns = Traces[tid].ns /\ ns0 = Traces[tid].ns /\ renamed = <<>> /\ uniq = {}
          /\ host = <<Traces[tid].host[1], Traces[tid].host[2]>> /\ target = <<Traces[tid].target[1], Traces[tid].target[2]>>
          /\ lab = [x \in Tables(Traces[tid].ns) |-> Traces[tid].labs[x[1]][x[2]]]
+         /\ xlab = [x \in Tables(Traces[tid].ns) |-> {Traces[tid].xlabs[x[1]][x[2]][k] : k \in 1..Len(Traces[tid].xlabs[x[1]][x[2]])}]
          /\ line = <<Traces[tid].i, Traces[tid].j>> /\ ab = Traces[tid].ab
 TSpec == TInit /\ [][UNCHANGED <<lvars, tid>>]_<<lvars, tid>>
 P == [num |-> E.num, q |-> <<E.sq, E.tq>>, l1 |-> E.l1, l2 |-> E.l2]
